@@ -153,6 +153,25 @@ func (x *rollWorld) cutInvariants(atCut bool) string {
 			continue
 		}
 		vs := claims[name]
+		// an existing, still desired child stays on record while the revision it was assigned to lives on: a child
+		// that changes hands is first added to the latest record, then dropped from the old one (in both for a
+		// moment, never in none). Only when an old revision gives up its last child - its record is deleted, and
+		// deletions come first - is the child unrecorded for a moment. An unrecorded child is handed to the latest
+		// revision at once on the next sync, past the health gate of the rollout, so this matters.
+		if len(vs) == 0 && len(claims) > 0 && kit.Get(c, "metadata", "deletionTimestamp") == nil && kit.Str(c, "spec", "tpl") != latestVer {
+			v := kit.Str(c, "spec", "tpl")
+			stillThere := false
+			for _, cvs := range claims {
+				for _, cv := range cvs {
+					if cv == v {
+						stillThere = true
+					}
+				}
+			}
+			if stillThere {
+				return fmt.Sprintf("child %s exists with the content of %s and is desired; the revision for %s still has a record, but the child is in no record any more (records: %v)", name, v, v, claims)
+			}
+		}
 		// never ahead: content of the latest revision while the (resolved) record says an older one
 		if kit.Str(c, "spec", "tpl") == latestVer && len(vs) > 0 {
 			resolvedLatest := false
